@@ -99,6 +99,10 @@ func fanoutRun(opt fanOpt) func(h []dsim.Rec) {
 	e := newEnv(cfg)
 	e.w.ChunkMode = dsim.Choose(3)
 	e.w.SendBuf = dsim.Pick(1<<16, 4096, 512)
+	planFlaky := dsim.Choose(4) == 3
+	if planFlaky {
+		e.w.SendBuf = 300 // a slow link: the channel's writer is often inside a transport write
+	}
 	dsim.SetDate(time.Date(2027, 3, 1, 0, 0, 0, 0, time.UTC))
 	e.start = time.Now()
 
@@ -306,7 +310,7 @@ func fanoutRun(opt fanOpt) func(h []dsim.Rec) {
 	// a transient read error on a custom transport: its channel is replaced while the writers go
 	// on; the link is only checked for order, at-most-once and whole frames from then on
 	var flaky *link
-	if dsim.Choose(4) == 3 {
+	if planFlaky {
 		for _, l := range stable {
 			if l.ep.kind == epCustom {
 				flaky = l
@@ -318,6 +322,14 @@ func fanoutRun(opt fanOpt) func(h []dsim.Rec) {
 		at := time.Duration(dsim.Choose(4000)) * time.Millisecond
 		d.spawn("flaky", func() {
 			dsim.Sleep(at)
+			// the peer stops draining for a while: the writer is stuck in a transport write when
+			// the read side fails
+			flaky.pauseRx(true)
+			dsim.Sleep(time.Duration(300+dsim.Choose(1500)) * time.Millisecond)
+			dsim.Go("flaky-resume", func() {
+				dsim.Sleep(time.Duration(200+dsim.Choose(2000)) * time.Millisecond)
+				flaky.pauseRx(false)
+			})
 			flaky.ep.pipe.SetFaults(world.Faults{ReadErrAt: flaky.ep.pipe.ReadCount() + 1, ReadErr: errInjectedRead, ReadErrOnce: true})
 			count("fault:transient-read-error")
 			flaky.send(sendValid, false) //nolint: makes the node return from its pending read and read again
